@@ -701,4 +701,94 @@ theorem hardLines_eq_split (cells : List VaxisModel.Model.Wrap.Cell) :
     obtain ⟨ls, h1, h2⟩ := hardLoop_split cells [] hne cells.length hlen
     simp only [hardAll, hardScan, he', Bool.false_eq_true, ↓reduceIte, h1, h2]
 
+/-! ### every line is at most as wide as the text -/
+
+open VaxisModel.Model.Wrap VaxisModel.Lemmas.Wrap in
+theorem sumW_stripBreak_le (seg : List VaxisModel.Model.Wrap.Cell) : sumW (stripBreak seg) ≤ sumW seg := by
+  obtain ⟨m, hm⟩ := stripBreak_eq_take seg
+  rw [hm]; exact sumW_take_le seg m
+
+open VaxisModel.Model.Wrap VaxisModel.Lemmas.Wrap in
+theorem scanLoop_sumW {σ : Type} (o : σ → List VaxisModel.Model.Wrap.Cell → Nat × Bool × σ) (ini : σ) (width : Nat) :
+    ∀ (fuel : Nat) (rest : List VaxisModel.Model.Wrap.Cell) (st : σ) (token : List VaxisModel.Model.Wrap.Cell) (w : Nat)
+      (rest' : List VaxisModel.Model.Wrap.Cell) (st' : σ) (tok : List VaxisModel.Model.Wrap.Cell),
+    scanLoop o ini width fuel rest st token w = .line rest' st' tok →
+    sumW tok + sumW rest' ≤ sumW token + sumW rest := by
+  intro fuel
+  induction fuel with
+  | zero => intro rest st token w rest' st' tok h; simp [scanLoop] at h
+  | succ n ih =>
+    intro rest st token w rest' st' tok h
+    unfold scanLoop at h
+    simp only [] at h
+    generalize o st rest = r at h
+    obtain ⟨k, br, st2⟩ := r
+    simp only [] at h
+    rw [drop_trim] at h
+    have hsplit : sumW rest = sumW (trimRight (rest.take k)) + sumW (trailing (rest.take k)) + sumW (rest.drop k) := by
+      conv => lhs; rw [← List.take_append_drop k rest, ← trim_append_trailing (rest.take k)]
+      rw [sumW_append, sumW_append]
+    split at h
+    · simp only [Scan.line.injEq] at h
+      obtain ⟨h1, _, h3⟩ := h
+      subst h1 h3
+      have hs := congrArg sumW (splitLong_append width (trimRight (rest.take k)) (!token.isEmpty) w)
+      rw [sumW_append] at hs
+      simp only [sumW_append]
+      omega
+    · split at h
+      · simp only [Scan.line.injEq] at h
+        obtain ⟨h1, _, h3⟩ := h
+        subst h1 h3
+        omega
+      · split at h
+        · simp only [Scan.line.injEq] at h
+          obtain ⟨h1, _, h3⟩ := h
+          subst h1 h3
+          have h1 := sumW_stripBreak_le (rest.take k)
+          have h2 : sumW (rest.take k) = sumW (trimRight (rest.take k)) + sumW (trailing (rest.take k)) := by
+            conv => lhs; rw [← trim_append_trailing (rest.take k)]
+            rw [sumW_append]
+          simp only [sumW_append]
+          omega
+        · split at h
+          · simp only [Scan.line.injEq] at h
+            obtain ⟨h1, _, h3⟩ := h
+            subst h1 h3
+            simp only [sumW_append]
+            omega
+          · have := ih _ _ _ _ _ _ _ h
+            simp only [sumW_append] at this
+            omega
+
+open VaxisModel.Model.Wrap VaxisModel.Lemmas.Wrap in
+theorem scanAll_sumW {σ : Type} (o : σ → List VaxisModel.Model.Wrap.Cell → Nat × Bool × σ) (ini : σ) (width : Nat) :
+    ∀ (fuel : Nat) (rest : List VaxisModel.Model.Wrap.Cell) (st : σ) (ls : List (List VaxisModel.Model.Wrap.Cell)),
+    scanAll o ini width fuel rest st = .ok ls → ∀ l ∈ ls, sumW l ≤ sumW rest := by
+  intro fuel
+  induction fuel with
+  | zero => intro rest st ls h; simp [scanAll] at h
+  | succ n ih =>
+    intro rest st ls h
+    unfold scanAll at h
+    split at h
+    · cases h; intro l hl; simp at hl
+    · cases h
+    · rename_i rest' st' tok hs
+      split at h
+      · rename_i ls' hls
+        cases h
+        have h1 : sumW tok + sumW rest' ≤ sumW rest := by
+          unfold scan at hs
+          split at hs
+          · cases hs
+          · have := scanLoop_sumW o ini width _ _ _ _ _ _ _ _ hs
+            simpa [sumW] using this
+        intro l hl
+        rcases List.mem_cons.mp hl with rfl | hl
+        · omega
+        · have := ih _ _ _ hls l hl
+          omega
+      · cases h
+
 end VaxisModel.Lemmas.WrapDraw
